@@ -105,14 +105,16 @@ impl<'c, W, R, T> RootEvaluationScope<'c, W, R, T> {
                     if let EvaluationCell::Value(v) = v {
                         let unmet_freq: Vec<_> = forward_requirements
                             .iter()
-                            .filter_map(|freq| {
+                            .flat_map(|freq| {
                                 // as the compile-time gate: a fulfilled forward requirement stands for
                                 // the requirements of its implementation
-                                let missing = self.compilation_scope.scope.unfulfilled_behind(freq)?;
+                                self.compilation_scope.scope.unfulfilled_behind(freq)
+                            })
+                            .map(|missing| {
                                 let fref = self.compilation_scope.scope.forward_ref(&missing);
                                 let interner = self.compilation_scope.interner.borrow();
                                 let name = interner.resolve(fref.name).unwrap();
-                                Some(name.to_string())
+                                name.to_string()
                             })
                             .collect();
                         if !unmet_freq.is_empty() {
